@@ -78,9 +78,14 @@ class FnTrans:
             self.params.append((p["name"], self.fresh(p["name"]), lt, kind))
             dflt = [c for c in p.get("inner", []) if "Literal" in c.get("kind", "") or c.get("kind", "").endswith("Expr") or c.get("kind") == "UnaryOperator"]
             self.defaults.append(dflt[0] if dflt else None)
+        self.state = list(job.get("state_members", {}).get(self.name, []))   # [(member, lean name, lean type)] read AND written
+        for (mn, ln, lt) in self.state:
+            self.counter[mn] = max(self.counter.get(mn, 0), 1)      # later assignments get fresh names (no shadowing)
+            self.params.append((mn, ln, lt, "state"))
+            self.defaults.append(None)
         self.ret_qt = decl["type"]["qualType"].split("(")[0].strip()
         self.ret_type = None if self.ret_qt == "void" else self.lean_type(self.ret_qt)[0]
-        self.outs = [p for p in self.params if p[3] == "out"]
+        self.outs = [p for p in self.params if p[3] in ("out", "state")]
 
     # ---- types
     def lean_type(self, qt, param=False):
@@ -170,6 +175,7 @@ class FnTrans:
             base = inner[0]
             if base.get("kind") == "CXXThisExpr" or (base.get("kind") == "ImplicitCastExpr" and base["inner"][0].get("kind") == "CXXThisExpr"):
                 nm = n["name"]
+                if nm in env and any(st[0] == nm for st in self.state): return env[nm]["lean"], env[nm]["type"], None
                 if nm in self.members: return self.members[nm][0], self.members[nm][1], None
                 raise Unsupported("%s: member %s of this not mapped" % (self.name, nm))
             t, ty, p = self.expr(base, env)
@@ -317,12 +323,32 @@ class FnTrans:
                 return m["inner"][0]
         return None
 
+    def lvalue_name(self, lhs):
+        """name of the variable / state member an lvalue expression denotes, else None"""
+        while lhs.get("kind") in ("ParenExpr", "UnaryOperator", "ImplicitCastExpr"): lhs = lhs["inner"][0]
+        if lhs.get("kind") == "DeclRefExpr": return lhs["referencedDecl"]["name"]
+        if lhs.get("kind") == "MemberExpr":
+            b = lhs["inner"][0]
+            while b.get("kind") == "ImplicitCastExpr": b = b["inner"][0]
+            if b.get("kind") == "CXXThisExpr": return lhs.get("name")
+        return None
+
+    def is_swap(self, n):
+        if n.get("kind") != "CallExpr": return None
+        c = n["inner"][0]
+        while c.get("kind") in ("ImplicitCastExpr", "ParenExpr"): c = c["inner"][0]
+        if c.get("kind") == "DeclRefExpr" and c["referencedDecl"]["name"] == "swap" and len(n["inner"]) == 3:
+            a, b = self.lvalue_name(n["inner"][1]), self.lvalue_name(n["inner"][2])
+            if a and b: return a, b
+        return None
+
     def assigned_vars(self, n, acc):
         k = n.get("kind")
         if k in ("BinaryOperator", "CompoundAssignOperator") and (n.get("opcode", "") == "=" or k == "CompoundAssignOperator"):
-            lhs = n["inner"][0]
-            while lhs.get("kind") in ("ParenExpr", "UnaryOperator", "ImplicitCastExpr"): lhs = lhs["inner"][0]
-            if lhs.get("kind") == "DeclRefExpr": acc.add(lhs["referencedDecl"]["name"])
+            nm = self.lvalue_name(n["inner"][0])
+            if nm: acc.add(nm)
+        sw = self.is_swap(n)
+        if sw: acc.update(sw)
         if k == "UnaryOperator" and n.get("opcode") in ("++", "--"):
             t = n["inner"][0]
             while t.get("kind") in ("ParenExpr",): t = t["inner"][0]
@@ -387,13 +413,8 @@ class FnTrans:
             pc = self.conj(*pres)
             return head + v, head + (("(%s) &&\n%s" % (pc, pad)) if pc else "") + p
         if k in ("BinaryOperator", "CompoundAssignOperator") and (s.get("opcode") == "=" or k == "CompoundAssignOperator"):
-            lhs = s["inner"][0]
-            deref = False
-            while lhs.get("kind") in ("ParenExpr", "UnaryOperator", "ImplicitCastExpr"):
-                if lhs.get("kind") == "UnaryOperator" and lhs.get("opcode") == "*": deref = True
-                lhs = lhs["inner"][0]
-            if lhs.get("kind") != "DeclRefExpr": raise Unsupported("%s: assignment target" % self.name)
-            cn = lhs["referencedDecl"]["name"]
+            cn = self.lvalue_name(s["inner"][0])
+            if cn is None: raise Unsupported("%s: assignment target" % self.name)
             if cn not in env: raise Unsupported("%s: assignment to unknown %s" % (self.name, cn))
             rhs = s["inner"][1]
             if k == "CompoundAssignOperator" and env[cn]["type"] == "Bool":
@@ -417,6 +438,19 @@ class FnTrans:
             v, pp = nxt(env)
             head = "let %s : %s := %s\n%s" % (ln, ty, t, pad)
             return head + v, head + (("(%s) &&\n%s" % (p, pad)) if p else "") + pp
+        sw = self.is_swap(s)
+        if sw is not None:
+            a, b = sw
+            if a not in env or b not in env or env[a]["type"] != env[b]["type"]: raise Unsupported("%s: swap operands" % self.name)
+            env = dict(env)
+            na, nb = self.fresh(a), self.fresh(b)
+            head = "let %s : %s := %s\n%slet %s : %s := %s\n%s" % (na, env[a]["type"], env[b]["lean"], pad, nb, env[b]["type"], env[a]["lean"], pad)
+            env[a] = dict(lean=na, type=env[a]["type"]); env[b] = dict(lean=nb, type=env[b]["type"])
+            v, pp = nxt(env)
+            return head + v, head + pp
+        if k == "BreakStmt":
+            if getattr(self, "_breakcont", None) is None: raise Unsupported("%s: break outside switch" % self.name)
+            return self._breakcont(env)
         if k == "ForStmt":
             return self.for_stmt(s, rest, env, cont, ind)
         if k == "SwitchStmt":
@@ -550,6 +584,39 @@ class FnTrans:
                 cur[1].append(st)
         covered = [l for a in arms if a[0] for l in a[0]]
         exhaustive = set(covered) == set(ctors)
+        if not any(self.has_return({"kind": "CompoundStmt", "inner": a[1]}) for a in arms):
+            # arms assign and `break` (no return anywhere): tuple-merge the assigned variables
+            vs = sorted({v for a in arms for v in self.assigned_vars({"kind": "CompoundStmt", "inner": a[1]}, set()) if v in env})
+            if not vs: raise Unsupported("%s: switch without effect" % self.name)
+            def fin(e):
+                vals = [e[v]["lean"] for v in vs]
+                return ("(" + ", ".join(vals) + ")" if len(vals) > 1 else vals[0]), "true"
+            saved = getattr(self, "_breakcont", None)
+            self._breakcont = fin
+            vals, pres = [], []
+            try:
+                for labels, stmts in arms:
+                    if labels is None and exhaustive: continue
+                    v, p = self.block(stmts, env, fin, ind + 2)      # falling off the end of the last arm = leaving the switch
+                    pat = " | ".join(labels) if labels else "_"
+                    vals.append("%s  | %s =>\n%s      %s" % (pad, pat, pad, v)); pres.append("%s  | %s => %s" % (pad, pat, p))
+                if not exhaustive and not any(a[0] is None for a in arms):
+                    v, p = fin(env)
+                    vals.append("%s  | _ => %s" % (pad, v)); pres.append("%s  | _ => %s" % (pad, p))
+            finally:
+                self._breakcont = saved
+            for labels, stmts in arms[:-1]:
+                last = stmts[-1] if stmts else {}
+                if last.get("kind") != "BreakStmt": raise Unsupported("%s: switch arm falls through into the next" % self.name)
+            env2 = dict(env); names = []
+            for v in vs:
+                ln = self.fresh(v); names.append(ln); env2[v] = dict(lean=ln, type=env[v]["type"])
+            pat = "(" + ", ".join(names) + ")" if len(names) > 1 else names[0]
+            tys = " × ".join(env[v]["type"] for v in vs)
+            v2, p2 = self.block(rest, env2, cont, ind)
+            head = "let %s : %s :=\n%s  match %s with\n%s\n%s" % (pat, tys, pad, scrut, "\n".join(vals), pad)
+            prem = "(match %s with\n%s) &&\n%s" % (scrut, "\n".join(pres), pad)
+            return head + v2, (("(%s) &&\n%s" % (sp, pad)) if sp else "") + prem + head + p2
         vals, pres = [], []
         for labels, stmts in arms:
             if labels is None and exhaustive: continue
@@ -661,13 +728,13 @@ class FnTrans:
         body = [c for c in self.decl["inner"] if c.get("kind") == "CompoundStmt"][0]
         sig = []
         for (cn, ln, lt, kind) in self.params:
-            if kind == "val": sig.append("(%s : %s)" % (ln, lt))
+            if kind in ("val", "state"): sig.append("(%s : %s)" % (ln, lt))
         extra = self.job.get("extra_params", {}).get(self.name, [])
         for (ln, lt) in list(extra) + self.this_params: sig.append("(%s : %s)" % (ln, lt))
         # out params start as `default` locals
         pre_lets = ""
         for (cn, ln, lt, kind) in self.outs:
-            pre_lets += "let %s : %s := default\n  " % (ln, lt)
+            if kind == "out": pre_lets += "let %s : %s := default\n  " % (ln, lt)
         def end(e):
             if self.ret_type is not None:
                 raise Unsupported("%s: control reaches end of non-void function" % self.name)
